@@ -68,11 +68,13 @@ def build(ctx):
     K = 3 if ctx.tier == 'quick' else 4
     ctx.bounds = {'ranges_per_file': K, 'line_numbers': '< 2^32 (usize is 64-bit; SourceMap positions are u32)', 'loop_unwind': 12,
                   'files': 'one file name (FileName::Stdin) plus the absent-file and select-all cases'}
-    ctx.outside = ['that every visitor consults the predicates (out_of_file_lines_range! call sites)', 'byte-for-byte copying of unselected items',
+    ctx.outside = ['guards other than the five entry guards checked here (block tail, reorder groups, missed-span writer)', 'byte-for-byte copying of unselected items',
                    'path canonicalisation (FileName::Real)', 'hi = usize::MAX (hi + 1 overflows in adjacent_to; line numbers are u32 in practice)',
                    'JSON parsing of --file-lines']
     ctx.assumptions = ['line numbers < 2^32', 'HashMap<FileName, Vec<Range>> is observed through values_mut/get only (entry-list summary)',
                        'slice::sort = a sorting network over the derived Ord::cmp MIR of Range']
+    if os.environ.get('C17_DEV') == 'guard':
+        return guard_sites(ctx, eng)
     rp = ctx.replayer()
     names = {m: eng.find(m, self_ty='Range', file=F) for m in ('is_empty', 'contains', 'intersects', 'adjacent_to', 'merge')}
     a, b = rng('a'), rng('b')
@@ -241,7 +243,194 @@ def build(ctx):
     ctx.cover('cover/inverted-between-adjacent', bounded(rs) + [z3.UGT(lo(rs[1]), hi(rs[1])), hi(rs[0]) + 1 == lo(rs[2]), nonempty(rs[0]), nonempty(rs[2]),
                                                                z3.ULT(lo(rs[0]), lo(rs[1])), z3.ULT(lo(rs[1]), lo(rs[2]))])
 
+    guard_sites(ctx, eng)
     validate(ctx, eng, names, norm, cl, cr)
+
+
+# ----------------------------------------------------------------------------- guards at the entry of the visitors / rewriters
+# For an item, associated item, macro call, expression or `let` whose span does not intersect the selection (the predicates are
+# stubbed: is_all() = false, intersects() = false), the function must do nothing but copy the span (visitor: push_rewrite(span,
+# None)) or refuse (rewriter: Err(SkipFormatting)). The first call to anything else ends the path as a violation candidate.
+
+GUARDED = [
+    dict(method='visit_item', self_ty='FmtVisitor', file='src/visitor.rs', kind='visitor'),
+    dict(method='visit_assoc_item', self_ty='FmtVisitor', file='src/visitor.rs', kind='visitor'),
+    dict(method='visit_mac', self_ty='FmtVisitor', file='src/visitor.rs', kind='visitor'),
+    # statements: format_stmt's own guard, or else the guards of Local::rewrite_result and format_expr that it reaches (both inlined);
+    # format_stmt is a function of its arguments into Result<String>, and any Err makes visit_stmt copy the span (push_rewrite(span, None))
+    dict(method='format_stmt', free=True, kind='rewriter', inline=[r'stmt\.rs.*format_stmt|^format_stmt$', r'items\.rs.*rewrite_result|Local.*rewrite_result', r'format_expr$']),
+]
+ALLOWED_BEFORE = re.compile(r'file_lines|FileLines::|lookup_line_range|[Ss]pan|tracing|LevelFilter|DefaultCallsite|Interest|__is_enabled|FieldSet|ValueSet|Metadata|Event::|fmt::|Arguments::|'
+                            r'Deref>::deref|as Clone>::clone|Config::|config_type')
+
+
+def guard_sites(ctx, eng):
+    rp_cli = make_cli_replay(ctx)
+    rp_sel = make_cli_replay(ctx, selected=True)
+
+    def push_rewrite(eng_, st_, args, ci):
+        st_.trace.append(('push_rewrite', args[2] if len(args) > 2 else None))
+        return UNIT
+
+    def other(eng_, st_, args, ci):
+        callee = ci.func
+        if ALLOWED_BEFORE.search(callee) or any(rx.search(callee) for rx, _, _ in eng_.intrinsics) or 'closure@' in callee:
+            return NotImplemented              # summaries / the lenient fallback (uninterpreted value) handle these
+        return [(st_, 'cut', {'callee': callee})]
+
+    def p_local(eng_, st_, args, ci):
+        inner = eng_.find('rewrite_result', self_ty='Local', file='src/items.rs', trait='Rewrite')
+        local = eng_.fresh_of_type(st_, '&rustc_ast::Local', 'local')
+        return eng_._inline(st_, eng_.get_fn(inner), [local, args[1], args[2]])
+
+    skip_idx = eng.variant_index('RewriteError', 'SkipFormatting')
+    if skip_idx is None:
+        raise Inconclusive('RewriteError::SkipFormatting not found')
+    # (is_all, intersects, expected): a selection that misses the node -> skip; one that meets it, or no selection -> process
+    VALUATIONS = [('outside', False, False), ('intersecting', False, True), ('no-selection', True, None)]
+    for g in GUARDED:
+      for vname, v_all, v_int in VALUATIONS:
+        skip_expected = vname == 'outside'
+        eng.stubs = []
+        eng.lenient = True
+        eng.unsupported_as_outcome = True
+        composite = g['kind'] == 'rewriter' and skip_expected
+        eng.inline_only = [re.compile(r'src/config/config_type\.rs')] + [re.compile(x) for x in (g.get('inline', []) if composite else g.get('inline', [])[:1])]
+        eng.stub(r'FileLines::is_all$', lambda e, s_, a, c, v=v_all: z3.BoolVal(v), 'guard harness: is_all() = false (a selection is given) / true (none)')
+        eng.stub(r'FileLines::intersects$', lambda e, s_, a, c, v=v_int: (z3.BoolVal(v) if v is not None else e.fresh_bool('intersects')),
+                 'guard harness: intersects() = false (no span of the node meets the selection) / true / unconstrained when is_all()')
+        eng.stub(r'^__is_enabled$|tracing::Level as PartialOrd<LevelFilter>>::le$', lambda e, s_, a, c: z3.BoolVal(False), 'tracing disabled')
+        if composite:
+            eng.stub(r'^<P<rustc_ast::Local> as Rewrite>::rewrite_result$', p_local,
+                     'P<Local>::rewrite_result (blanket impl + default method: Local::rewrite(..).unknown_error()) = Local::rewrite_result with Ok kept and every Err kept an Err')
+        else:
+            eng.stub(r'FmtVisitor::<.*>::push_rewrite$', push_rewrite, 'FmtVisitor::push_rewrite observed')
+            eng.stub(r'.', other, 'guard harness: the first call that is not a config/span/selection query ends the path ("the node is being processed")')
+        try:
+            if g.get('free'):
+                name = eng.find(g['method'], free=True)
+            else:
+                name = eng.find(g['method'], self_ty=g['self_ty'], file=g['file'], trait=g.get('trait'))
+        except KeyError as e:
+            raise Inconclusive('guarded function not found: %s' % e)
+        fn = eng.get_fn(name)
+        st = State()
+        args = [eng.fresh_of_type(st, ty, 'a%d' % i) for i, (_, ty) in enumerate(fn.params)]
+        label = 'guard/%s/%s' % (g['method'], vname)
+        rp = rp_cli if skip_expected else rp_sel
+        eng.block_budget = 20000
+        try:
+            outs = eng.run(name, args, st)
+        except Budget:
+            # with the guards in place the exploration ends within a few dozen blocks; running out of budget means the walk got past them
+            ctx.prop('%s/exploration-past-the-guard-exceeds-the-block-budget' % label, [], z3.BoolVal(True), [], rp, twin=False)
+            continue
+        finally:
+            eng.block_budget = None
+        ctx.paths += len(outs)
+        nret = ncut = 0
+        for pi, o in enumerate(outs):
+            if o.kind in ('cut', 'unsupported', 'unwind'):
+                ncut += 1
+                if not skip_expected:
+                    continue                       # the node is being processed: what is wanted here
+                what = short_callee(o.info.get('callee', '?')) if o.kind == 'cut' else 'code past the guard: %s' % str(o.info)[:80]
+                ctx.prop('%s/p%d/unselected-node-is-not-processed(reaches %s)' % (label, pi, what), o.state.pc, z3.BoolVal(True), [], rp, twin=False)
+            elif o.kind == 'ret':
+                nret += 1
+                if g['kind'] == 'visitor':
+                    pr = [t for t in o.state.trace if t[0] == 'push_rewrite']
+                    copied = len(pr) == 1 and isinstance(pr[0][1], Enum) and pr[0][1].concrete() == 0
+                    if skip_expected:
+                        ctx.prop('%s/p%d/unselected-node-is-copied-verbatim' % (label, pi), o.state.pc, z3.BoolVal(not copied), [], rp, twin=False)
+                    else:
+                        ctx.prop('%s/p%d/selected-node-is-not-skipped' % (label, pi), o.state.pc, z3.BoolVal(True), [], rp, twin=False)
+                else:
+                    v = o.value
+                    if skip_expected:
+                        if isinstance(v, Enum) and v.concrete() is not None:
+                            bad = z3.BoolVal(v.concrete() != 1)
+                        elif isinstance(v, Enum):
+                            bad = v.discr != 1
+                        else:
+                            bad = z3.BoolVal(True)
+                        ctx.prop('%s/p%d/unselected-statement-is-refused(Err)' % (label, pi), o.state.pc, bad, [], rp, twin=False)
+                    else:
+                        # Err(Unknown) for macro/item/empty statements and a failed sub_width are legitimate; Err(SkipFormatting) is the guard
+                        e = v.payloads.get(1) if isinstance(v, Enum) else None
+                        e = e.items[0] if e is not None else None
+                        if isinstance(v, Enum) and v.concrete() == 1 and isinstance(e, Enum) and e.concrete() is not None:
+                            bad = z3.BoolVal(e.concrete() == skip_idx)
+                        elif isinstance(v, Enum) and v.concrete() == 1 and not isinstance(e, Enum):
+                            bad = z3.BoolVal(False)      # an error value of another type converted by `?` (ExceedsMaxWidthError)
+                        elif isinstance(v, Enum) and isinstance(e, Enum):
+                            bad = z3.And(v.discr == 1, e.discr == skip_idx)
+                        else:
+                            bad = z3.BoolVal(True)
+                        ctx.prop('%s/p%d/selected-statement-is-not-refused-as-out-of-range' % (label, pi), o.state.pc, bad, [], rp, twin=False)
+            elif o.kind == 'panic':
+                if g['method'] == 'visit_assoc_item' and 'unreachable' in str(o.info.get('msg', '')) + str(o.info.get('kind', '')):
+                    continue                       # documented precondition: visitor_kind is AssocTraitItem or AssocImplItem
+                if g['kind'] == 'rewriter':
+                    continue                       # panics are C16's subject; here only the returned verdict matters
+                ctx.prop('%s/p%d/no-panic' % (label, pi), o.state.pc, z3.BoolVal(True), [], rp, twin=False)
+        if skip_expected and nret == 0:
+            ctx.inconclusive.append('%s: no path returns with the node outside the selection' % label)
+        if not skip_expected and ncut == 0:
+            ctx.inconclusive.append('%s: no path goes on to process the node' % label)
+    eng.stubs = []
+    eng.lenient = False
+    eng.unsupported_as_outcome = False
+    eng.inline_only = None
+
+
+def short_callee(c):
+    return re.sub(r'<[^<>]*>', '', c)[-50:]
+
+
+# (source, selected line): the selected line lies inside the enclosing item, so the enclosing guards let the walk in; every other
+# line is mis-spaced and must come back byte for byte. Selected lines format to a single line, so line numbers are stable.
+FL_CASES = [
+    ('fn main() {\n    let a = 1;\n    let   b = 2;\n    unreachable ! (   );\n    todo ! [  ];\n    let   v   =   1 ;\n    call( 1 ,2 ) ;\n    fn   inner( ) { }\n    let   w ;\n    let   u : u8 ;\n    w=1 ;\n    loop  { break ; }\n}\n', 3, '    let b = 2;'),
+    ('struct S;\nimpl S {\n    fn   sel( & self ) { }\n    fn   other( & self ) { }\n    const   C : u8   =  1 ;\n    mac ! (  a  );\n}\n', 3, '    fn sel(&self) {}'),
+    ('trait T {\n    fn   sel( & self ) ;\n    fn   other( & self ) ;\n    type   A ;\n}\n', 2, '    fn sel(&self);'),
+    ('mod m {\n    fn   sel( ) { }\n    fn   other( ) { }\n    struct   Q ;\n    mac ! {  a  }\n}\n', 2, '    fn sel() {}'),
+    ('// only this line is selected\nfn   item_one( ) { let   a=1 ; }\nimpl   S { fn   assoc( & self ) { } }\ntrait   T { fn   decl( & self ) ; }\nmac ! (  a  );\n', 1, '// only this line is selected'),
+]
+
+
+def make_cli_replay(ctx, selected=False):
+    def run(rf, src, flags):
+        pr = subprocess.run([rf, '--emit', 'stdout', '--quiet'] + flags, input=src, capture_output=True, text=True, env=run_env(), timeout=60)
+        if pr.returncode != 0 or not pr.stdout:
+            raise Inconclusive('guard replay: rustfmt %s failed: %s' % (flags, pr.stderr[:200]))
+        return pr.stdout
+
+    def replay(model, r):
+        bins = ensure_bins()
+        rf = os.path.join(bins, 'rustfmt')
+        findings = []
+        for src, sel, want in FL_CASES:
+            out = run(rf, src, ['--unstable-features', '--file-lines', '[{"file":"stdin","range":[%d,%d]}]' % (sel, sel)])
+            a, b = src.split('\n'), out.split('\n')
+            if not selected:
+                if len(a) != len(b):
+                    findings.append('selection [%d,%d] of %r: line count changed %d -> %d' % (sel, sel, src[:30], len(a), len(b)))
+                    continue
+                bad = [(i + 1, a[i], b[i]) for i in range(len(a)) if i + 1 != sel and a[i] != b[i]]
+                if bad:
+                    findings.append('selection [%d,%d]: unselected lines changed: %r' % (sel, sel, bad[:4]))
+            else:
+                # code that intersects the selection is formatted as without the restriction
+                if len(b) <= sel - 1 or b[sel - 1] != want:
+                    findings.append('selection [%d,%d]: the selected line came back as %r, not %r' % (sel, sel, b[sel - 1] if len(b) >= sel else None, want))
+                n = len(a)
+                whole = run(rf, src, ['--unstable-features', '--file-lines', '[{"file":"stdin","range":[1,%d]}]' % n])
+                free = run(rf, src, [])
+                if whole != free:
+                    findings.append('selection [1,%d] (everything) differs from the unrestricted output of %r' % (n, src[:30]))
+        return {'reproduced': bool(findings), 'detail': findings}
+    return replay
 
 
 def to_py(v):
